@@ -5,6 +5,7 @@ package main
 // must never appear (mustache syntax inside data is never evaluated).
 
 import (
+	"encoding/json"
 	"fmt"
 	"strings"
 )
@@ -175,6 +176,18 @@ var c01Constructs = []c01Construct{
 	{"keep-plain", func(s string, v any) (map[string]string, map[string]any) {
 		return map[string]string{"page.vuego": `<div><template v-keep :q="x" label="{{ x }}">` + s + `</template></div>`}, c01Data(v)
 	}},
+	// the value comes from a FILE of the template filesystem, read by a template function while rendering (file / jsonFile / yamlFile)
+	{"file-content", func(s string, v any) (map[string]string, map[string]any) {
+		d := c01Data("unused")
+		delete(d, "x")
+		return map[string]string{"page.vuego": `<template :x="file('val.txt')"></template><div>` + s + `</div>`, "val.txt": fmt.Sprint(v)}, d
+	}},
+	{"jsonfile-content", func(s string, v any) (map[string]string, map[string]any) {
+		d := c01Data("unused")
+		delete(d, "x")
+		b, _ := json.Marshal(map[string]any{"v": v, "kk": "kv"})
+		return map[string]string{"page.vuego": `<template :x="jsonFile('val.json').v"></template><div>` + s + `</div>`, "val.json": string(b)}, d
+	}},
 	{"layout-var", func(s string, v any) (map[string]string, map[string]any) {
 		return map[string]string{"page.vuego": "---\nlayout: main\n---\n<em>page</em>", "layouts/main.vuego": `<main><div v-html="content"></div>` + s + `</main>`}, c01Data(v)
 	}},
@@ -197,7 +210,7 @@ func c01Eval(sink c01Sink, nb c01Nb, con c01Construct, val string) *Case {
 	filesW, dataW := con.wrap(markup, "word")
 	got := renderPage(files, "page.vuego", data)
 	ref := renderPage(filesW, "page.vuego", dataW)
-	if con.name != "layout-var" && sink.name != "attr-data-json-pipe" { // (the pipe model has no json filter)
+	if con.name != "layout-var" && con.name != "file-content" && con.name != "jsonfile-content" && sink.name != "attr-data-json-pipe" { // (the pipe model has no json filter)
 		pendingPages = append(pendingPages, pageCase("inert:"+sink.name+"/"+con.name, files, nil, "page.vuego", data, "construct:"+con.name))
 	}
 	c := &Case{Name: fmt.Sprintf("%s/%s/%s value %q", sink.name, nb.name, con.name, val),
